@@ -13,7 +13,7 @@ Driver for C07 (texts travel as hex of their UTF-8 bytes, `_` = empty).
                                                      (declare-sort / declare-fun groups compared as multisets: their order is a hash order)
     readstd <env> <hex text>                       → ok <encTerm> : <ty> | err <hex msg>
           <env> := E <hex logic> <nsorts> (<hex name> <arity>)* <nfuns> (<hex name> <symty>)*
-    chk_print <k> <interp>*k <term> <hex text>     → ok <compared> <skipped> <exact|unfolded> | fail lex|read|type|value …
+    chk_print <k> <interp>*k <term> <hex text>     → ok <compared> <skipped> <exact|unfolded|other> | fail lex|read|type|value …   (exact: the term itself; unfolded: Printer.unfoldAV term)
           S oracle, independent of the printer model: the text is read with `readStd` in `envOf term`, its sort must be
           the term's, its value the term's under every interpretation given (those evaluating a division by zero skipped)
     runstd <hex script>                            → accepted <ncommands> | rejected <hex msg> | unreadable <hex msg>
